@@ -25,8 +25,8 @@ out = ["# Seeded breaking changes and what the registered checks do with them", 
        "| variant | file | change | confirmed by me | registered quick check | first oracle message |", "|---|---|---|---|---|---|"]
 notes = []
 for pid, var, meta, ver, res in rows:
-    files = ", ".join(os.path.basename(f) for f in meta.get("files_touched", []))[:80]
-    summ = (meta.get("summary", "") or "")[:140].replace("|", "/").replace("\n", " ")
+    files = ", ".join(os.path.basename(f) for f in (meta.get("files_touched") or ([meta["file"]] if meta.get("file") else [])))[:80]
+    summ = (meta.get("summary", "") or meta.get("change", "") or "")[:140].replace("|", "/").replace("\n", " ")
     needs = (meta.get("needs_to_manifest", "") or "")[:160].replace("|", "/").replace("\n", " ")
     conf = "-" if ver is None else ("yes" if ver.get("confirmed") else "no: demo %s/%s ctest %s" % (ver.get("demo_exit_at_head"), ver.get("demo_exit_with_patch"), ver.get("ctest_failures_with_patch")))
     det = "-" if res is None else ("DETECTED (%ds)" % res.get("wall_s", 0) if res.get("detected") else "missed (exit %s)" % res.get("exit"))
